@@ -9,6 +9,7 @@
     INFO -> number of functions, opaque ones
 -/
 import VsgModel.Prog.Eval
+import VsgModel.Prog.Check
 import VsgModel.Generated.ClassifyProg
 import VsgModel.Generated.ClassTree
 import VsgModel.Base.CaseTables
@@ -128,11 +129,22 @@ def decArgs (st : State) (s : String) : List Val × State :=
 
 def fuelDefault : Nat := 20000000
 
-def runLine (key args fname toks : String) : String :=
+/-- the running system with the named functions made opaque (`maskNames`, the table of the `…_masked_…` theorems) -/
+def maskedSys (bad : List String) : Sys :=
+  if bad.isEmpty then pySys else { pySys with funs := (maskNames bad Gen.Prog.progTable).toArray }
+
+def chkByName : String → Option Chk
+  | "noLen" => some Chk.noLen
+  | "value" => some Chk.value
+  | "noRaise" => some Chk.noRaise
+  | "noIndex" => some Chk.noIndex
+  | "any" => some Chk.any
+  | _ => none
+
+def runLine (S : Sys) (key args fname toks : String) : String :=
   match funIndex.get? key with
   | none => "error unknown function " ++ key
   | some f =>
-    let S := pySys
     let st0 := initState S (Cli.decCToks toks).toArray (if fname == "-" then Val.none else Val.str (Cli.decS fname))
     let (vs, st0) := decArgs st0 args
     let (r, st) :=
@@ -145,21 +157,32 @@ def runLine (key args fname toks : String) : String :=
     let cov := " ".intercalate ((st.calls.toList.zipIdx.filter (fun p => p.1 != 0)).map fun p => s!"{p.2}:{p.1}")
     s!"{head}\t{encStr st.msg}\t{st.nIns} {st.nDel} {st.steps}\t{cov}\t{Cli.encCToks st.toks.toList}"
 
-partial def progLoop (h out : IO.FS.Stream) : IO Unit := do
+partial def progLoop (h out : IO.FS.Stream) (S : Sys := pySys) : IO Unit := do
   let line ← h.getLine
   if line.isEmpty then return ()
   let line := if line.endsWith "\n" then (line.dropEnd 1).toString else line
   match line.splitOn "\t" with
   | ["RUN", key, args, fname, toks] =>
-    out.putStrLn (runLine key args fname toks); out.flush
-    progLoop h out
+    out.putStrLn (runLine S key args fname toks); out.flush
+    progLoop h out S
+  | ["MASK", names] =>
+    -- subsequent RUNs use the table with these functions made opaque (names joined by ';', empty = full table)
+    let bad := if names.isEmpty then [] else names.splitOn ";"
+    out.putStrLn s!"masked {bad.length}"; out.flush
+    progLoop h out (maskedSys bad)
+  | ["FAILING", chk] =>
+    -- names of the functions of the generated table that do not pass the named checker
+    match chkByName chk with
+    | some C => out.putStrLn (";".intercalate (failingNames C Gen.Prog.progTable)); out.flush
+    | none => out.putStrLn "error unknown checker"; out.flush
+    progLoop h out S
   | ["INFO"] =>
     let opq := (funArr.toList.zipIdx.filter (fun p => p.1.isOpaque)).map (fun p => toString p.2)
     out.putStrLn s!"functions {funArr.size} opaque {" ".intercalate opq}"; out.flush
-    progLoop h out
+    progLoop h out S
   | _ =>
     out.putStrLn ("error bad line " ++ (line.take 40).toString); out.flush
-    progLoop h out
+    progLoop h out S
 
 def progMain (stdin stdout : IO.FS.Stream) : IO Unit := progLoop stdin stdout
 
